@@ -190,6 +190,26 @@ func H_C10_structured() {
 	c10Check(argv)
 }
 
+// well-formed flag mentions only (short alphabet, one token more than H_C10_structured can afford): repeated flags,
+// bare booleans next to explicit ones, values that are given with `=` - the interplay of several mentions
+func H_C10_mentions() {
+	n := vxPick(vxParam("maxMentions") + 1)
+	argv := make([]string, n)
+	names := []string{"b", "help", "n", "s"}
+	dash := []string{"-", "--"}
+	for i := range argv {
+		t := dash[vxPick(len(dash))] + names[vxPick(len(names))]
+		if vxPick(2) == 1 {
+			t += "=" + vxString(1)
+		}
+		argv[i] = t
+	}
+	if n >= 3 {
+		vxReach("three flag mentions")
+	}
+	c10Check(argv)
+}
+
 func H_C10_vacuity() {
 	argv := []string{"-s", vxString(2), vxString(2)}
 	var cfg c10Cfg
